@@ -114,7 +114,7 @@ def c17_digest(v):
         obs = [round(float(x), 6) for x in obs]
     else:
         obs = str(obs)[:60]
-    key = json.dumps([v.get("site"), v.get("kind"), c.get("template"), g.get("nv"), g.get("card"), g.get("fam"), c.get("q"), c.get("e"), obs], sort_keys=True)
+    key = json.dumps([v.get("site"), v.get("kind"), c.get("template"), g.get("nv"), g.get("card"), g.get("fam"), c.get("q"), c.get("e"), obs] + ([True] if g.get("zeros") else []), sort_keys=True)
     return hashlib.sha1(key.encode()).hexdigest()[:16]
 
 
